@@ -12,6 +12,8 @@ from .. import canon, gen, lang, history, monitors, boot
 from ..rng import Streams, weighted
 from ..world import real_eval
 
+from ..model import runaway
+
 ID = 'C10'
 LEVEL = 'exploration'
 TIERS = {'quick': 8000, 'thorough': 300000}
@@ -268,6 +270,8 @@ def generate(seed, tier):
             continue                                   # executed on scratch names in both worlds: state unchanged
         ops.append(op)
         out = _apply_model(model, op)
+        if runaway(out):
+            ops.pop()        # a time / memory bomb for both worlds: not part of the history
         if out[0] == 'unspec':
             break
         if 'ast_names' in op and len(models) > 1 and ro.random() < 0.5:
